@@ -115,6 +115,20 @@ def abstract(routine):
     return abstract_list(routine.children)
 
 
+def routines_of(root):
+    """The routines of a tree in visitor order (the tree may itself be a Routine)."""
+    return root.walk(_nodes().Routine)
+
+
+def abstract_container(root):
+    """Model `Container`: one forest per routine, in order."""
+    return [abstract(r) for r in routines_of(root)]
+
+
+def container_sx(forests):
+    return "(C " + " ".join(to_sx(f) for f in forests) + ")"
+
+
 def to_sx(forest):
     return "(" + " ".join("(%s %d %s)" % (k, c, to_sx(ch)[1:-1]) if ch else "(%s %d)" % (k, c)
                           for k, c, ch in forest) + ")"
@@ -144,11 +158,18 @@ def kinds_in(forest, acc=None):
 
 
 # ---------------------------------------------------------------- direct construction
-def build(forest):
+def build_container(forests):
+    """Real PSyIR Container (module) with one routine per forest, by direct node construction."""
+    n = _nodes()
+    from psyclone.psyir.symbols import SymbolTable
+    return n.Container.create("m", SymbolTable(), [build(f, "s%d" % i) for i, f in enumerate(forests)])
+
+
+def build(forest, name="s"):
     """Real PSyIR Routine for a model forest, by direct node construction (no transformations)."""
     n = _nodes()
     from psyclone.psyir.symbols import DataSymbol, INTEGER_TYPE, REAL_TYPE, ArrayType
-    routine = n.Routine("s")
+    routine = n.Routine(name)
     tab = routine.symbol_table
     arr = DataSymbol("a", ArrayType(REAL_TYPE, [10]))
     tab.add(arr)
@@ -241,7 +262,8 @@ def build(forest):
 
 # ---------------------------------------------------------------- real outcomes
 def validate_all(routine):
-    """Run validate_global_constraints of every node in visitor (pre-)order."""
+    """Run validate_global_constraints of every node of the tree (a routine or a whole container) in
+    visitor (pre-)order."""
     from psyclone.errors import GenerationError
     n = _nodes()
     try:
@@ -295,6 +317,22 @@ def gfortran(code):
 def gen_program(rng):
     """Small subroutine: 2..4 top-level items (loop nests of depth 1..3, perfect or not, some
     triangular; statements; if-blocks holding a nest)."""
+    return gen_routine(rng, "s")
+
+
+def gen_module(rng, nroutines=None):
+    """Module with 1..3 subroutines (each as gen_program); a later routine sometimes calls an earlier
+    one at its top level."""
+    nr = nroutines or rng.choice([1, 2, 2, 2, 3])
+    names = ["r%d" % i for i in range(nr)]
+    subs = []
+    for i, name in enumerate(names):
+        subs.append(gen_routine(rng, name, callees=names[:i] if rng.random() < 0.3 else ()))
+    body = "\n".join("  " + ln for sub in subs for ln in sub.rstrip("\n").split("\n"))
+    return "module m\n  implicit none\ncontains\n%s\nend module m\n" % body
+
+
+def gen_routine(rng, name, callees=()):
     lines = []
     counter = [0]
 
@@ -339,10 +377,12 @@ def gen_program(rng):
             lines.append("  if (n > 2) then")
             nest(rng.choice([1, 2]), [], "    ")
             lines.append("  end if")
+    if callees:
+        lines.insert(rng.choice([0, len(lines)]), "  call %s(a, b, c, n)" % rng.choice(list(callees)))
     decl = ", ".join("%s%d" % (c, i) for c in "ijk" for i in range(3))
-    return ("subroutine s(a, b, c, n)\n  integer, intent(in) :: n\n"
+    return ("subroutine %s(a, b, c, n)\n  integer, intent(in) :: n\n"
             "  real, intent(inout) :: a(n,n,n), b(n,n,n)\n  real, intent(in) :: c(n,n,n)\n"
-            "  integer :: %s\n%s\nend subroutine s\n" % (decl, "\n".join(lines)))
+            "  integer :: %s\n%s\nend subroutine %s\n" % (name, decl, "\n".join(lines), name))
 
 
 def parse(src):
@@ -378,7 +418,7 @@ FAMILY = {"omp": [k for k in LOOP_OPS + REGION_OPS if k.startswith("omp")],
           "mixed": list(LOOP_OPS + REGION_OPS)}
 
 
-def gen_op(rng, routine, family="mixed"):
+def gen_op(rng, routine, family="mixed", p_routine=0.035):
     """One random operation on the current tree (paths are child indices from the routine).
     family restricts the directive API; part of the region operations are 'guided': they wrap the
     top-level statement that holds a randomly chosen directive or loop."""
@@ -406,6 +446,10 @@ def gen_op(rng, routine, family="mixed"):
                     node = node.parent
             return {"op": op, "path": path_of(node.parent, routine), "range": [node.position, node.position + 1],
                     "nowait": False}
+    if rng.random() < p_routine - 0.035:
+        cands = [k for k in ROUTINE_OPS if family == "mixed" or k.startswith(family)]
+        if cands:
+            return {"op": rng.choice(cands)}
     r = rng.random()
     if r < 0.45:
         loops = routine.walk(n.Loop)
@@ -501,9 +545,11 @@ def apply_op(routine, op):
 
 
 def run_history(src, ops):
-    """Re-run a stored history.  Returns (root, routine, statuses)."""
+    """Re-run a stored history; an operation acts on routine number op["routine"] (default 0) of the
+    parsed file.  Returns (root, first routine, statuses)."""
     root, routine = parse(src)
-    statuses = [apply_op(routine, op) for op in ops]
+    routines = routines_of(root)
+    statuses = [apply_op(routines[op.get("routine", 0)], op) for op in ops]
     return root, routine, statuses
 
 
